@@ -353,10 +353,12 @@ def translate(inventory, outdir):
                     prules_v.append(f"Definition {idi} : prule := mk_prule {cstr(name + ' @ ' + ty)} {sx_coq(subst_atom(pl, '?type', ty))} "
                                     f"{sx_coq(subst_atom(pr, '?type', ty))} [{pcs}].")
                     pobl_v.append(f"Lemma {idi}_sound : psound {idi}.\nProof. prule_sound. Qed.")
+                    pobl_v.append(f"Lemma {idi}_buildable : pbuildable {idi}.\nProof. prule_buildable. Qed.")
                     psound_ids.append(idi)
                     info["plan_instances_sound"].append(f"{name} @ {ty}")
             else:
                 pobl_v.append(f"Lemma {idn}_sound : psound {idn}.\nProof. prule_sound. Qed.")
+                pobl_v.append(f"Lemma {idn}_buildable : pbuildable {idn}.\nProof. prule_buildable. Qed.")
                 psound_ids.append(idn)
                 info["plan_sound"].append(name)
         if not is_expr_rule(lhs, rhs):
@@ -405,6 +407,11 @@ def translate(inventory, outdir):
     term = "(Forall_nil _)"
     for i in reversed(psound_ids):
         term = f"(Forall_cons _ {i}_sound {term})"
+    pobl_v.append(f"Proof. exact {term}. Qed.")
+    pobl_v.append("Lemma psound_rules_buildable : Forall pbuildable psound_rules.")
+    term = "(Forall_nil _)"
+    for i in reversed(psound_ids):
+        term = f"(Forall_cons _ {i}_buildable {term})"
     pobl_v.append(f"Proof. exact {term}. Qed.")
     pobl_v.append(f"Definition prefuted_rules : list prule := [{'; '.join(prefuted_ids)}].")
     pobl_v.append("Lemma prefuted_rules_ok : Forall prefuted prefuted_rules.")
